@@ -243,6 +243,7 @@ type workerOutcome struct {
 func runShard(ch *Check, exe, tier string, i, n int, tmp string, deadline time.Time, argsJSON string, seed int64) workerOutcome {
 	o := workerOutcome{}
 	var skip []string
+	unexplained := 0
 	maxBad := ch.MaxBadCases
 	if maxBad == 0 {
 		maxBad = 40
@@ -274,6 +275,12 @@ func runShard(ch *Check, exe, tier string, i, n int, tmp string, deadline time.T
 		}
 		desc := readProgress(progFile)
 		if desc == "" || ch.Single == nil {
+			// a worker that dies without a trace (killed from outside, e.g. by the kernel under memory
+			// pressure caused by other jobs) is restarted once before it is believed
+			if unexplained == 0 && strings.TrimSpace(output) == "" {
+				unexplained++
+				continue
+			}
 			o.crashed, o.output = true, tail(output, 6000)
 			return o
 		}
